@@ -190,16 +190,21 @@ class _ClsLevelDispatch(RefCollection[_ET]):
 
         cls: Type[_ET]
 
-        for cls in util.walk_subclasses(target):
-            if cls is not target and cls not in self._clslevel:
+        classes = list(util.walk_subclasses(target))
+
+        # establish the collections of subclasses not seen yet before the
+        # listener is added anywhere; a subclass with several bases
+        # otherwise copies the listener from whichever base was visited
+        # first, behind the listeners of its other bases
+        for cls in classes:
+            if cls not in self._clslevel:
                 self.update_subclass(cls)
+
+        for cls in classes:
+            if is_append:
+                self._clslevel[cls].append(event_key._listen_fn)
             else:
-                if cls not in self._clslevel:
-                    self.update_subclass(cls)
-                if is_append:
-                    self._clslevel[cls].append(event_key._listen_fn)
-                else:
-                    self._clslevel[cls].appendleft(event_key._listen_fn)
+                self._clslevel[cls].appendleft(event_key._listen_fn)
         registry._stored_in_collection(event_key, self)
 
     def insert(self, event_key: _EventKey[_ET], propagate: bool) -> None:
